@@ -25,10 +25,14 @@ type Config struct {
 	Seekable bool        `json:"seekable"`
 	User     string      `json:"user"`
 	Owner    string      `json:"owner"`
+	Meta     int         `json:"meta_profile,omitempty"` // see meta.go
 }
 
 func (c Config) String() string {
 	s, _ := c.V.ToString()
+	if c.Meta != 0 {
+		return fmt.Sprintf("v%s human=%v seekable=%v user=%q owner=%q meta-profile=%d", s, c.Human, c.Seekable, c.User, c.Owner, c.Meta)
+	}
 	return fmt.Sprintf("v%s human=%v seekable=%v user=%q owner=%q", s, c.Human, c.Seekable, c.User, c.Owner)
 }
 
@@ -80,6 +84,8 @@ type Result struct {
 	Pages     pdf.Reference
 	Page      pdf.Reference
 	Title     string
+	Catalog   pdf.Catalog // as set before Close (meta.go)
+	Info      pdf.Info
 	ID        [][]byte
 	NumOps    int
 	WriteErr  error // error returned by a Writer call (with fault injection)
@@ -158,7 +164,8 @@ func value(i int, self pdf.Reference) pdf.Object {
 	case 1:
 		return pdf.Real(-0.5)
 	case 2:
-		return pdf.Name("A B/#(")
+		// (every delimiter and two white-space bytes: all of them need a #xx escape)
+		return pdf.Name("A B/#(){}<>[]%\x00\t")
 	case 3:
 		return pdf.String(")(\\\r()(")
 	case 4:
@@ -177,7 +184,15 @@ func value(i int, self pdf.Reference) pdf.Object {
 		// buffer size
 		a := make(pdf.Array, 0, 700)
 		for i := 0; i < 700; i++ {
-			a = append(a, pdf.Name("AAA"[:1+i%3]+" B"))
+			switch {
+			case i%97 == 64:
+				// strings deep inside a long array (they are encrypted one by one)
+				a = append(a, pdf.String(fmt.Sprintf("string %d (in a long array)", i)))
+			case i == 300:
+				a = append(a, pdf.Dict{"K": pdf.String("string in a dictionary in a long array"), "L": pdf.Array{pdf.String("and one level deeper")}})
+			default:
+				a = append(a, pdf.Name("AAA"[:1+i%3]+" B"))
+			}
 		}
 		return a
 	}
@@ -239,6 +254,11 @@ type Env struct {
 	// ValueDev: if false value/filter/chunk choices are free choices; if true
 	// they cost a deviation (default value otherwise).
 	FreeValues bool
+	// HandRefs adds, once per program, a reference made by hand (pdf.NewReference,
+	// not Alloc) whose number is the Writer's next free number.
+	HandRefs bool
+	// FailedCallsFirst runs failedCalls (poison.go) before every program.
+	FailedCallsFirst bool
 }
 
 type interp struct {
@@ -251,6 +271,15 @@ type interp struct {
 	high    int
 	shared  pdf.Dict
 	bigDone bool
+	last    uint32 // number of the most recently allocated reference
+	hand    bool   // the hand-made "next free number" reference has been used
+}
+
+// alloc is Writer.Alloc, remembering the number handed out.
+func (in *interp) alloc() pdf.Reference {
+	r := in.w.Alloc()
+	in.last = r.Number()
+	return r
 }
 
 func (in *interp) numValues() int {
@@ -277,13 +306,25 @@ func (in *interp) arg(what string, o pdf.Object) pdf.Object {
 // with generation 0 or 3.
 func (in *interp) chooseRef(allowHigh bool) (pdf.Reference, string) {
 	n := 1 + len(in.pending)
-	if allowHigh && in.high < 2 && !(in.env != nil && in.env.NoHigh) {
+	high := allowHigh && in.high < 2 && !(in.env != nil && in.env.NoHigh)
+	if high {
 		n += 3
 	}
+	// a reference made by hand (not through Alloc) whose number is the Writer's next free number
+	hand := allowHigh && !in.hand && in.last > 0 && in.env != nil && in.env.HandRefs
+	if hand {
+		n++
+	}
 	k := in.c.Choose(n, "ref")
+	if hand && k == n-1 {
+		in.hand = true
+		r := pdf.NewReference(in.last+1, 0)
+		in.last++
+		return r, "hand-made-next-free"
+	}
 	switch {
 	case k == 0:
-		return in.w.Alloc(), "fresh"
+		return in.alloc(), "fresh"
 	case k <= len(in.pending):
 		r := in.pending[k-1]
 		in.pending = append(in.pending[:k-1:k-1], in.pending[k:]...)
@@ -353,6 +394,9 @@ func Exec(cfg Config, c *explore.Ctx, maxOps int, env *Env) (res *Result) {
 			res.Reject = fmt.Sprint("panic: ", p)
 		}
 	}()
+	if env != nil && env.FailedCallsFirst {
+		failedCalls(cfg.V)
+	}
 	w, err := pdf.NewWriter(out, cfg.V, opt)
 	if err != nil {
 		res.Accepted = false
@@ -365,6 +409,7 @@ func Exec(cfg Config, c *explore.Ctx, maxOps int, env *Env) (res *Result) {
 	// prelude: a one-page page tree so that NewReader accepts the file
 	res.Pages = w.Alloc()
 	res.Page = w.Alloc()
+	in.last = res.Page.Number()
 	pagesDict := pdf.Dict{"Type": pdf.Name("Pages"), "Kids": pdf.Array{res.Page}, "Count": pdf.Integer(1)}
 	pageDict := pdf.Dict{"Type": pdf.Name("Page"), "Parent": res.Pages, "MediaBox": pdf.Array{pdf.Integer(0), pdf.Integer(0), pdf.Integer(100), pdf.Integer(100)}}
 	if err := w.Put(res.Pages, pagesDict); err != nil {
@@ -375,6 +420,7 @@ func Exec(cfg Config, c *explore.Ctx, maxOps int, env *Env) (res *Result) {
 	w.GetMeta().Catalog.Pages = res.Pages
 	res.Title = "Title (with) parens"
 	w.GetMeta().Info.Title = pdf.TextString(res.Title)
+	res.Catalog, res.Info = applyMeta(w, cfg.Meta, cfg.V)
 
 	put := func(ref pdf.Reference, v pdf.Object, what string) bool {
 		in.arg(what, v)
@@ -409,7 +455,7 @@ func Exec(cfg Config, c *explore.Ctx, maxOps int, env *Env) (res *Result) {
 				res.Reject = "alphabet: more than two pending references"
 				return res
 			}
-			r := w.Alloc()
+			r := in.alloc()
 			in.pending = append(in.pending, r)
 			res.Ops = append(res.Ops, fmt.Sprintf("Alloc->%v", r))
 		case "put":
@@ -451,7 +497,7 @@ func Exec(cfg Config, c *explore.Ctx, maxOps int, env *Env) (res *Result) {
 			refs := make([]pdf.Reference, n)
 			vals := make([]pdf.Object, n)
 			for i := range refs {
-				refs[i] = w.Alloc()
+				refs[i] = in.alloc()
 				vals[i] = pdf.Integer(1000 + i)
 			}
 			res.Ops = append(res.Ops, fmt.Sprintf("WriteCompressed(%d objects %v..%v)", n, refs[0], refs[n-1]))
@@ -512,7 +558,7 @@ func Exec(cfg Config, c *explore.Ctx, maxOps int, env *Env) (res *Result) {
 			putInside := putInsideKind != 0
 			deferred := 0
 			putDeferred := func() bool {
-				r2 := w.Alloc()
+				r2 := in.alloc()
 				deferred++
 				if putInsideKind >= 2 {
 					data := []byte("deferred stream body")
